@@ -946,6 +946,12 @@ def C17(c):
                         sc["probe"] = probe
                     sc["record_ops"] = True      # "during churn" is then exact: the send overlapped a rewrite of the live-listener list
                     out.append(sc)
+        # a recycled stream id that sorts BEFORE live ones (create 0 1 2; drop 1; create -> 3; create -> 1: the list [0,2,3,-] becomes [0,1,2,3]
+        # and a listener that exists throughout moves to another position) while a producer sends
+        th = [[DROPS(1), CREATE(), S(11)], [CREATE()], [DRIVE(0, max_=1)], [DRIVE(2, max_=1)]]
+        for sc in explore2("%s_recycled_id" % kind, kind, n, 4, th, c, mr * 4, rr * 4, seed_extra=9, pre_streams=3):
+            sc["record_ops"] = True
+            out.append(sc)
         return out
     run_multi(c, MULTI_KINDS, build, checks, procs=5)
     # implementation -> specification at the granularity of the code: the same churn executions of the Arc-based atomic channel once more with
